@@ -8,7 +8,7 @@ from harness import gen
 from harness.framework import Suite
 
 PID = "C08"
-LEAN_MODS = ["SwcVerif.Props.C08", "SwcVerif.Props.C08Gen", "SwcVerif.Props.C08Node"]
+LEAN_MODS = ["SwcVerif.Props.C08", "SwcVerif.Props.C08Gen", "SwcVerif.Props.C08Node", "SwcVerif.Props.C08BranchTree"]
 # Gen/AlgoBranches.lean (Tree.get_branches / get_paths / get_furcations and their closures) runs on Gen/AlgoTraverse.lean;
 # Gen/AlgoNodeBranch.lean (Tree.get_tips, Tree.Node.branch) runs on the node methods of Gen/AlgoNode.lean
 TRANSLATE_ALGO = ["AlgoTraverse", "AlgoBranches", "AlgoNode", "AlgoNodeBranch", "AlgoSubtree", "AlgoBranchTree"]
@@ -26,6 +26,11 @@ THEOREMS = [
     "RefineNode.node_is_tip_spec", "RefineNodeBranch.getTips_refines", "C08.generated_tips_childless", "C08.generated_tips_eq_tipsOf",
     "RefineNodeBranch.nodeBranch_refines", "RefineNodeBranch.nodeBranch_shape", "RefineNodeBranch.nodeBranch_furcation",
     "C08.generated_nodeBranch_eq_model", "C08.generated_nodeBranch_shape_partial", "C08.generated_nodeBranch_furcation",
+    # BranchTree.from_tree generated from branch_tree.py on this run (Gen/AlgoBranchTree.lean, on the generated get_branches / to_sub_topology)
+    "RefineBranchTree.for1_loop", "RefineBranchTree.for2_loop", "RefineBranchTree.for3_loop", "RefineBranchTree.nonzero_eqMask",
+    "RefineBranchTree.step_eq", "RefineBranchTree.fromTree_refines_on", "RefineBranchTree.fileBranches_spec", "RefineBranchTree.toSubTopology_total",
+    "C08.furcs_tips_nodup", "C08.branch_mem", "C08.branch_head_mem", "C08.branch_nodes_nodup",
+    "C08.generated_fromTree_eq_model", "C08.branchTree_model_spec", "C08.generated_branchTree_table",
 ]
 TRUSTED = ["hand-written models Model/Branches.lean of the traversal callbacks (tied by the c08.decomp correspondence suite)"]
 ASSUMPTIONS = ["the traversal loop is C04's machine (C04.traverse_eq_spec)", "np.setdiff1d returns the sorted ids that never occur as a parent"]
